@@ -6,13 +6,18 @@ import json, os, sys
 HERE = os.path.dirname(os.path.abspath(__file__))
 sys.path.insert(0, os.path.join(os.path.dirname(HERE), "rules"))
 import extract
+import renames
 names = set()
+records = {}
 for cfg in extract.THOROUGH:
     out, sha = extract.facts_path(cfg)
     for fn in ("jubako.lib.json", "jbk.bin.json"):
         p = os.path.join(out, fn)
         if os.path.exists(p):
-            for f in json.load(open(p))["fns"]:
+            fns = json.load(open(p))["fns"]
+            for f in fns:
                 names.add(f["name"])
-json.dump({"functions": sorted(names)}, open(os.path.join(HERE, "baseline_functions.json"), "w"), indent=0)
+            for k, v in renames.baseline_records(fns).items():
+                records.setdefault(k, v)
+json.dump({"functions": sorted(names), "records": records}, open(os.path.join(HERE, "baseline_functions.json"), "w"), indent=0)
 print(len(names), "functions")
